@@ -48,6 +48,39 @@ theorem lvl_nobrace (a : Str) (h : ∀ c ∈ a, nobrace c) : ∀ d, lvl a d = so
     simp only [lvl, hc.1, hc.2, if_false]
     exact ih (fun x hx => h x (by simp [hx])) d
 
+/-- a scan that succeeds from depth `d` succeeds from any greater depth, shifted -/
+theorem lvl_add (a : Str) : ∀ (d d' k : Nat), lvl a d = some d' → lvl a (d + k) = some (d' + k) := by
+  induction a with
+  | nil => intro d d' k h; simp only [lvl, Option.some.injEq] at h ⊢; omega
+  | cons c cs ih =>
+    intro d d' k h
+    simp only [lvl] at h ⊢
+    split at h
+    · rename_i hc
+      simp only [hc, if_true]
+      have := ih (d + 1) d' k h
+      have e : d + k + 1 = d + 1 + k := by omega
+      rw [e]; exact this
+    · rename_i hc1
+      split at h
+      · rename_i hc2
+        split at h
+        · cases h
+        · rename_i hd
+          have hd' : ¬ (d + k ≤ 1) := by omega
+          simp only [hc1, hc2, if_false, if_true, hd']
+          have := ih (d - 1) d' k h
+          have e : d + k - 1 = d - 1 + k := by omega
+          rw [e]; exact this
+      · rename_i hc2
+        simp only [hc1, hc2, if_false]
+        exact ih d d' k h
+
+theorem lvl_shift (a : Str) (d d' : Nat) (h : lvl a d = some d') (e : Nat) (he : d ≤ e) : lvl a e = some (d' + (e - d)) := by
+  have := lvl_add a d d' (e - d) h
+  have e1 : d + (e - d) = e := by omega
+  rw [e1] at this; exact this
+
 /-- the text of one `{ … }` group starting at depth `d` (0 before its opening brace), and what follows it -/
 def takeGroup : Str → Nat → Option (Str × Str)
   | [], _ => none
